@@ -105,9 +105,9 @@ theorem canon26 (l0 l1 l2 l3 l4 l5 l6 l7 l8 l9 q0 q1 q2 q3 q4 q5 q6 q7 q8 q t0 t
     f0 + 2 ^ 26 * f1 + 2 ^ 51 * f2 + 2 ^ 77 * f3 + 2 ^ 102 * f4 + 2 ^ 128 * f5 + 2 ^ 153 * f6 + 2 ^ 179 * f7 + 2 ^ 204 * f8 + 2 ^ 230 * f9 < 2 ^ 255 - 19 := by
   have hq : 0 ≤ q0 ∧ q0 ≤ 1 ∧ 0 ≤ q1 ∧ q1 ≤ 1 ∧ 0 ≤ q2 ∧ q2 ≤ 1 ∧ 0 ≤ q3 ∧ q3 ≤ 1 ∧ 0 ≤ q4 ∧ q4 ≤ 1 ∧ 0 ≤ q5 ∧ q5 ≤ 1 ∧ 0 ≤ q6 ∧ q6 ≤ 1 ∧ 0 ≤ q7 ∧ q7 ≤ 1 ∧ 0 ≤ q8 ∧ q8 ≤ 1 ∧ 0 ≤ q ∧ q ≤ 1 := by omega
   have key : l0 + 2 ^ 26 * l1 + 2 ^ 51 * l2 + 2 ^ 77 * l3 + 2 ^ 102 * l4 + 2 ^ 128 * l5 + 2 ^ 153 * l6 + 2 ^ 179 * l7 + 2 ^ 204 * l8 + 2 ^ 230 * l9 + 19
-      = 2 ^ 255 * q + ((l0 + 19) % 2 ^ 26 + 2 ^ 26 * (l1 + q0) % 2 ^ 25 + 2 ^ 51 * (l2 + q1) % 2 ^ 26 + 2 ^ 77 * (l3 + q2) % 2 ^ 25 + 2 ^ 102 * (l4 + q3) % 2 ^ 26 + 2 ^ 128 * (l5 + q4) % 2 ^ 25 + 2 ^ 153 * (l6 + q5) % 2 ^ 26 + 2 ^ 179 * (l7 + q6) % 2 ^ 25 + 2 ^ 204 * (l8 + q7) % 2 ^ 26 + 2 ^ 230 * (l9 + q8) % 2 ^ 25) := by omega
-  have rb : 0 ≤ ((l0 + 19) % 2 ^ 26 + 2 ^ 26 * (l1 + q0) % 2 ^ 25 + 2 ^ 51 * (l2 + q1) % 2 ^ 26 + 2 ^ 77 * (l3 + q2) % 2 ^ 25 + 2 ^ 102 * (l4 + q3) % 2 ^ 26 + 2 ^ 128 * (l5 + q4) % 2 ^ 25 + 2 ^ 153 * (l6 + q5) % 2 ^ 26 + 2 ^ 179 * (l7 + q6) % 2 ^ 25 + 2 ^ 204 * (l8 + q7) % 2 ^ 26 + 2 ^ 230 * (l9 + q8) % 2 ^ 25) ∧
-      ((l0 + 19) % 2 ^ 26 + 2 ^ 26 * (l1 + q0) % 2 ^ 25 + 2 ^ 51 * (l2 + q1) % 2 ^ 26 + 2 ^ 77 * (l3 + q2) % 2 ^ 25 + 2 ^ 102 * (l4 + q3) % 2 ^ 26 + 2 ^ 128 * (l5 + q4) % 2 ^ 25 + 2 ^ 153 * (l6 + q5) % 2 ^ 26 + 2 ^ 179 * (l7 + q6) % 2 ^ 25 + 2 ^ 204 * (l8 + q7) % 2 ^ 26 + 2 ^ 230 * (l9 + q8) % 2 ^ 25) < 2 ^ 255 := by omega
+      = 2 ^ 255 * q + ((l0 + 19) % 2 ^ 26 + 2 ^ 26 * ((l1 + q0) % 2 ^ 25) + 2 ^ 51 * ((l2 + q1) % 2 ^ 26) + 2 ^ 77 * ((l3 + q2) % 2 ^ 25) + 2 ^ 102 * ((l4 + q3) % 2 ^ 26) + 2 ^ 128 * ((l5 + q4) % 2 ^ 25) + 2 ^ 153 * ((l6 + q5) % 2 ^ 26) + 2 ^ 179 * ((l7 + q6) % 2 ^ 25) + 2 ^ 204 * ((l8 + q7) % 2 ^ 26) + 2 ^ 230 * ((l9 + q8) % 2 ^ 25)) := by omega
+  have rb : 0 ≤ ((l0 + 19) % 2 ^ 26 + 2 ^ 26 * ((l1 + q0) % 2 ^ 25) + 2 ^ 51 * ((l2 + q1) % 2 ^ 26) + 2 ^ 77 * ((l3 + q2) % 2 ^ 25) + 2 ^ 102 * ((l4 + q3) % 2 ^ 26) + 2 ^ 128 * ((l5 + q4) % 2 ^ 25) + 2 ^ 153 * ((l6 + q5) % 2 ^ 26) + 2 ^ 179 * ((l7 + q6) % 2 ^ 25) + 2 ^ 204 * ((l8 + q7) % 2 ^ 26) + 2 ^ 230 * ((l9 + q8) % 2 ^ 25)) ∧
+      ((l0 + 19) % 2 ^ 26 + 2 ^ 26 * ((l1 + q0) % 2 ^ 25) + 2 ^ 51 * ((l2 + q1) % 2 ^ 26) + 2 ^ 77 * ((l3 + q2) % 2 ^ 25) + 2 ^ 102 * ((l4 + q3) % 2 ^ 26) + 2 ^ 128 * ((l5 + q4) % 2 ^ 25) + 2 ^ 153 * ((l6 + q5) % 2 ^ 26) + 2 ^ 179 * ((l7 + q6) % 2 ^ 25) + 2 ^ 204 * ((l8 + q7) % 2 ^ 26) + 2 ^ 230 * ((l9 + q8) % 2 ^ 25)) < 2 ^ 255 := by omega
   have tel : f0 + 2 ^ 26 * f1 + 2 ^ 51 * f2 + 2 ^ 77 * f3 + 2 ^ 102 * f4 + 2 ^ 128 * f5 + 2 ^ 153 * f6 + 2 ^ 179 * f7 + 2 ^ 204 * f8 + 2 ^ 230 * f9 + 2 ^ 255 * (t9 / 2 ^ 25)
       = l0 + 2 ^ 26 * l1 + 2 ^ 51 * l2 + 2 ^ 77 * l3 + 2 ^ 102 * l4 + 2 ^ 128 * l5 + 2 ^ 153 * l6 + 2 ^ 179 * l7 + 2 ^ 204 * l8 + 2 ^ 230 * l9 + 19 * q := by omega
   have fb : (0 ≤ f0 ∧ f0 < 2 ^ 26) ∧ (0 ≤ f1 ∧ f1 < 2 ^ 25) ∧ (0 ≤ f2 ∧ f2 < 2 ^ 26) ∧ (0 ≤ f3 ∧ f3 < 2 ^ 25) ∧ (0 ≤ f4 ∧ f4 < 2 ^ 26) ∧ (0 ≤ f5 ∧ f5 < 2 ^ 25) ∧ (0 ≤ f6 ∧ f6 < 2 ^ 26) ∧ (0 ≤ f7 ∧ f7 < 2 ^ 25) ∧ (0 ≤ f8 ∧ f8 < 2 ^ 26) ∧ (0 ≤ f9 ∧ f9 < 2 ^ 25) := by omega
@@ -136,14 +136,14 @@ theorem pack26_bytes (f0 f1 f2 f3 f4 f5 f6 f7 f8 f9 : Int)
 /-- **the hand model computes the canonical encoding**: for limbs inside the contract every output is a byte and the
 little-endian value of the output is `(Σ a_i 2^⌈25.5 i⌉) mod p` -/
 theorem asBytesModel26_val (a0 a1 a2 a3 a4 a5 a6 a7 a8 a9 : Int)
-    (b0 : 0 ≤ a0 ∧ a0 < 2 ^ 28) (b1 : 0 ≤ a1 ∧ a1 < 2 ^ 27) (b2 : 0 ≤ a2 ∧ a2 < 2 ^ 28) (b3 : 0 ≤ a3 ∧ a3 < 2 ^ 27) (b4 : 0 ≤ a4 ∧ a4 < 2 ^ 28) (b5 : 0 ≤ a5 ∧ a5 < 2 ^ 27) (b6 : 0 ≤ a6 ∧ a6 < 2 ^ 28) (b7 : 0 ≤ a7 ∧ a7 < 2 ^ 27) (b8 : 0 ≤ a8 ∧ a8 < 2 ^ 28) (b9 : 0 ≤ a9 ∧ a9 < 2 ^ 27) :
+    (ha0 : 0 ≤ a0 ∧ a0 < 2 ^ 28) (ha1 : 0 ≤ a1 ∧ a1 < 2 ^ 27) (ha2 : 0 ≤ a2 ∧ a2 < 2 ^ 28) (ha3 : 0 ≤ a3 ∧ a3 < 2 ^ 27) (ha4 : 0 ≤ a4 ∧ a4 < 2 ^ 28) (ha5 : 0 ≤ a5 ∧ a5 < 2 ^ 27) (ha6 : 0 ≤ a6 ∧ a6 < 2 ^ 28) (ha7 : 0 ≤ a7 ∧ a7 < 2 ^ 27) (ha8 : 0 ≤ a8 ∧ a8 < 2 ^ 28) (ha9 : 0 ≤ a9 ∧ a9 < 2 ^ 27) :
     (∀ b ∈ asBytesModel26 a0 a1 a2 a3 a4 a5 a6 a7 a8 a9, 0 ≤ b ∧ b ≤ 255) ∧
     leValZ (asBytesModel26 a0 a1 a2 a3 a4 a5 a6 a7 a8 a9) = val26Z [a0, a1, a2, a3, a4, a5, a6, a7, a8, a9] % (2 ^ 255 - 19) := by
   unfold asBytesModel26
   extract_lets b1 z0 b5 z4 b2 z1 b6 z5 b3 l2 b7 l6 b4 l3 b8 l7 l5 l4 b9 l8 c0 l9 l1 l0 q0 q1 q2 q3 q4 q5 q6 q7 q8 q t0 t1 t2 t3 t4 t5 t6 t7 t8 t9 f0 f1 f2 f3 f4 f5 f6 f7 f8 f9
   obtain ⟨⟨bl0, bl1, bl2, bl3, bl4, bl5, bl6, bl7, bl8, bl9⟩, hH⟩ :=
     reduce26_abs a0 a1 a2 a3 a4 a5 a6 a7 a8 a9 l0 l1 l2 l3 l4 l5 l6 l7 l8 l9 b1 b2 b3 b4 b5 b6 b7 b8 b9 c0 z0 z1 z4 z5
-      b0 b1 b2 b3 b4 b5 b6 b7 b8 b9 rfl rfl rfl rfl rfl rfl rfl rfl rfl rfl rfl rfl rfl rfl rfl rfl rfl rfl rfl rfl rfl rfl rfl rfl
+      ha0 ha1 ha2 ha3 ha4 ha5 ha6 ha7 ha8 ha9 rfl rfl rfl rfl rfl rfl rfl rfl rfl rfl rfl rfl rfl rfl rfl rfl rfl rfl rfl rfl rfl rfl rfl rfl
   obtain ⟨⟨bf0, bf1, bf2, bf3, bf4, bf5, bf6, bf7, bf8, bf9⟩, hq, hF, hF0, hFp⟩ :=
     canon26 l0 l1 l2 l3 l4 l5 l6 l7 l8 l9 q0 q1 q2 q3 q4 q5 q6 q7 q8 q t0 t1 t2 t3 t4 t5 t6 t7 t8 t9 f0 f1 f2 f3 f4 f5 f6 f7 f8 f9 bl0 bl1 bl2 bl3 bl4 bl5 bl6 bl7 bl8 bl9
       rfl rfl rfl rfl rfl rfl rfl rfl rfl rfl rfl rfl rfl rfl rfl rfl rfl rfl rfl rfl rfl rfl rfl rfl rfl rfl rfl rfl rfl rfl
@@ -154,9 +154,9 @@ theorem asBytesModel26_val (a0 a1 a2 a3 a4 a5 a6 a7 a8 a9 : Int)
 
 /-- the same for the generated normal form -/
 theorem as_bytes_fn_val (a0 a1 a2 a3 a4 a5 a6 a7 a8 a9 : Int)
-    (b0 : 0 ≤ a0 ∧ a0 < 2 ^ 28) (b1 : 0 ≤ a1 ∧ a1 < 2 ^ 27) (b2 : 0 ≤ a2 ∧ a2 < 2 ^ 28) (b3 : 0 ≤ a3 ∧ a3 < 2 ^ 27) (b4 : 0 ≤ a4 ∧ a4 < 2 ^ 28) (b5 : 0 ≤ a5 ∧ a5 < 2 ^ 27) (b6 : 0 ≤ a6 ∧ a6 < 2 ^ 28) (b7 : 0 ≤ a7 ∧ a7 < 2 ^ 27) (b8 : 0 ≤ a8 ∧ a8 < 2 ^ 28) (b9 : 0 ≤ a9 ∧ a9 < 2 ^ 27) :
+    (ha0 : 0 ≤ a0 ∧ a0 < 2 ^ 28) (ha1 : 0 ≤ a1 ∧ a1 < 2 ^ 27) (ha2 : 0 ≤ a2 ∧ a2 < 2 ^ 28) (ha3 : 0 ≤ a3 ∧ a3 < 2 ^ 27) (ha4 : 0 ≤ a4 ∧ a4 < 2 ^ 28) (ha5 : 0 ≤ a5 ∧ a5 < 2 ^ 27) (ha6 : 0 ≤ a6 ∧ a6 < 2 ^ 28) (ha7 : 0 ≤ a7 ∧ a7 < 2 ^ 27) (ha8 : 0 ≤ a8 ∧ a8 < 2 ^ 28) (ha9 : 0 ≤ a9 ∧ a9 < 2 ^ 27) :
     leValZ (as_bytes_fn a0 a1 a2 a3 a4 a5 a6 a7 a8 a9) = val26Z [a0, a1, a2, a3, a4, a5, a6, a7, a8, a9] % (2 ^ 255 - 19) := by
   rw [as_bytes_fn_eq_model]
-  exact (asBytesModel26_val a0 a1 a2 a3 a4 a5 a6 a7 a8 a9 b0 b1 b2 b3 b4 b5 b6 b7 b8 b9).2
+  exact (asBytesModel26_val a0 a1 a2 a3 a4 a5 a6 a7 a8 a9 ha0 ha1 ha2 ha3 ha4 ha5 ha6 ha7 ha8 ha9).2
 
 end Dalek.Proofs.Bytes26
